@@ -16,8 +16,13 @@ ALPHA = ["host 1", "host 2", "host 3", "host 4", "lit4", "lit6", "cancel", "wait
 HOSTS = ["HOST 1 0 0 0 %d" % (A1 + 5), "HOST 2 1000 0 0 %d 0 %d" % (A1 + 6, A1 + 7), "HOST 3 10000000 14", "HOST 4 100000000 0 1 77 0 %d" % (A1 + 8)]
 
 
-def build(seq, net):
-    L = list(net.lines) + HOSTS
+# the name that has no addresses: failing with host_not_found, failing with another error, or not failing at all
+# (whatever the configuration returned is what the handler must get)
+H3 = ["HOST 3 10000000 14", "HOST 3 10000000 3", "HOST 3 10000000 0"]
+
+
+def build(seq, net, variant=0):
+    L = list(net.lines) + [H3[variant % 3] if h.startswith("HOST 3 ") else h for h in HOSTS]
     L.append("M rslv_new 1 1")
     hid = 100
     tid = 0
@@ -58,11 +63,11 @@ def generate(rng, tier):
                 continue
             if d == depth and tier == "quick" and rng.random() < 0.75:
                 continue
-            out.append(("x%d" % k, build(seq, net)))
+            out.append(("x%d" % k, build(seq, net, k)))
             k += 1
     for j in range(100 if tier == "quick" else 2000):
         seq = [rng.choice(ALPHA) for _ in range(rng.choice([6, 15, 60]))]
-        out.append(("g%d" % j, build(seq, net)))
+        out.append(("g%d" % j, build(seq, net, j)))
     return out
 
 
